@@ -13,6 +13,7 @@ import (
 	"strconv"
 	"strings"
 
+	"cosmossdk.io/math"
 	sdk "github.com/cosmos/cosmos-sdk/types"
 
 	adaptertypes "github.com/noble-assets/orbiter/v2/types/component/adapter"
@@ -265,6 +266,7 @@ func checkC16(tier string) *Report {
 		}
 		rep.Outcome("seam-disagreement-always-refused")
 	})
+	c16Routes(rep, worlds, full)
 	for i := 0; i < len(cases); i += len(cases)/6 + 1 {
 		rep.Sample(fmt.Sprintf("%+v", cases[i]))
 	}
@@ -275,4 +277,108 @@ func checkC16(tier string) *Report {
 type orbPacketView struct {
 	denom string
 	amt   *big.Int
+}
+
+// c16Routes — "acts on exactly the coin the ICS-20 application credited", on every ROUTE and with other
+// denominations lying on the orbiter account. States: W0 and W0 + Env(hyp-synthetic) (a synthetic Hyperlane token
+// exists; the account holds 1000 of it) each with and without stray balances of two further denominations.
+// Packets: one-hop vouchers of every escrowed denomination × every route (internal, CCTP, Hyperlane collateral,
+// Hyperlane synthetic) × fee shapes. Oracle on every SUCCESS: the escrow released exactly the credited coin; the
+// orbiter account's balance of every OTHER denomination is unchanged and its balance of the credited denomination
+// did not grow — so whatever left through the route was (part of) the credited coin and nothing else.
+func c16Routes(rep *Report, worlds []*World, full bool) {
+	w0 := worlds[0]
+	type st struct {
+		name string
+		ops  []Op
+	}
+	strays := []Op{w0.OpDeposit(w0.Orb, denomOTH, 77), w0.OpDeposit(w0.Orb, denomBIG2, 1234567)}
+	states := []st{{"W0", nil}, {"W0+strays", strays}, {"synthetic", []Op{OpEnv("hyp-synthetic")}}, {"synthetic+strays", append([]Op{OpEnv("hyp-synthetic")}, strays...)}}
+	routes := []Fwd{w0.FwdInternal(w0.Bob), w0.FwdCCTP(0), w0.FwdHyp(1), w0.FwdHypSyn()}
+	feeSets := [][]FeeSpec{nil, {{To: w0.Fee1.String(), Bps: 100}}}
+	if full {
+		feeSets = append(feeSets, []FeeSpec{{To: w0.Fee1.String(), Fixed: "1"}, {To: w0.Fee2.String(), Bps: 5000}})
+	}
+	bases := []string{denomUSDC, denomOTH, denomBIG2, w0.DenomSyn}
+	amts := []string{"100", "1000", "1001"}
+	type rc struct {
+		si          int
+		base, amt   string
+		route, fees int
+	}
+	var cases []rc
+	for si := range states {
+		for _, b := range bases {
+			for _, a := range amts {
+				for ri := range routes {
+					for fi := range feeSets {
+						cases = append(cases, rc{si, b, a, ri, fi})
+					}
+				}
+			}
+		}
+	}
+	escrow := w0.Escrow0
+	parallelFor(worlds, len(cases), func(w *World, i int) {
+		c := cases[i]
+		rep.Count("evaluations", 1)
+		rep.Count("route_cases", 1)
+		ctx := Branch(w.Ctx)
+		for _, op := range states[c.si].ops {
+			if r := w.Apply(ctx, op); !r.Succeeded() {
+				rep.HarnessError("c16 routes: fixture op %s failed in %s: %+v %s", op.Label, states[c.si].name, r.Msg, r.Err)
+				return
+			}
+		}
+		p := Pkt{SrcPort: "transfer", SrcChan: "channel-7", DstPort: "transfer", DstChan: "channel-0", Denom: "transfer/channel-7/" + c.base, Amount: c.amt,
+			Sender: defaultSender, Receiver: w.Orb.String(), Memo: Memo(routes[c.route], feeSets[c.fees])}
+		sig := fmt.Sprintf("routes state=%s base=%s amount=%s route=%s fees=%d", states[c.si].name, c.base, c.amt, routes[c.route].String(), c.fees)
+		ops := append(append([]Op{}, states[c.si].ops...), Op{Label: sig, Pkt: &p})
+		replay := mustJSON(map[string]any{"ops": ops})
+		s0 := w.Snapshot(ctx)
+		r := w.Recv(ctx, p)
+		if r.Panic != "" {
+			rep.Violate(Violation{Kind: "panic", Group: "routes", Sig: sig, Replay: replay, What: "orbiter-addressed packet panicked: " + r.Panic + " " + sig})
+			return
+		}
+		if !r.Success {
+			rep.Outcome("route-refused")
+			return
+		}
+		rep.Outcome("route-accepted")
+		rep.Count(fmt.Sprintf("route-accepted:%s:%s:%s", states[c.si].name, c.base, routes[c.route].String()), 1)
+		rep.Distinct(sig)
+		s1 := w.Snapshot(ctx)
+		amt, _ := math.NewIntFromString(c.amt)
+		denoms := map[string]bool{}
+		for _, a := range []sdk.AccAddress{w.Orb, escrow} {
+			for d := range s0.Bal[a.String()] {
+				denoms[d] = true
+			}
+			for d := range s1.Bal[a.String()] {
+				denoms[d] = true
+			}
+		}
+		for _, d := range sortedKeys(denoms) {
+			dOrb := s1.Get(w.Orb, d).Sub(s0.Get(w.Orb, d))
+			dEsc := s1.Get(escrow, d).Sub(s0.Get(escrow, d))
+			bad := ""
+			switch {
+			case d == c.base && !dEsc.Equal(amt.Neg()):
+				bad = fmt.Sprintf("the escrow released %s%s, the packet names %s", dEsc.Neg(), d, c.amt)
+			case d == c.base && dOrb.IsPositive():
+				bad = fmt.Sprintf("%s%s of the credited coin stayed on the orbiter account", dOrb, d)
+			case d != c.base && !dEsc.IsZero():
+				bad = fmt.Sprintf("the escrow's %s balance changed by %s although the packet carries %s", d, dEsc, c.base)
+			case d != c.base && !dOrb.IsZero():
+				bad = fmt.Sprintf("the orbiter account's %s balance changed by %s: the transfer acted on a coin ICS-20 did not credit (%s%s)", d, dOrb, c.amt, c.base)
+			}
+			if bad != "" {
+				rep.Violate(Violation{Kind: "acted-on-a-different-coin", Group: "routes", Sig: sig, Replay: replay, What: bad + " [" + sig + "]"})
+				return
+			}
+		}
+		rep.Count("traces_validated_against_impl", 1)
+	})
+	rep.Guard(rep.Outcomes["route-accepted"] >= 20 && rep.Outcomes["route-refused"] >= 20, "route phase: outcome classes missing: %v", rep.Outcomes)
 }
